@@ -582,6 +582,175 @@ func TestMatchContexts(t *testing.T) {
 	})
 }
 
+// --- sequences: several matches on the same union in one fc run -------------------------------------
+// The exhaustiveness decision of a match must not depend on matches processed
+// before it (the parse state lives for the whole run).
+
+// SeqCase: candidates sharing one union declaration, each in its own function, in order.
+type SeqCase struct {
+	Cands []Cand `json:"cands"`
+	Nest  bool   `json:"nest,omitempty"` // the last candidate sits inside an arm of the first one's match
+}
+
+func (sc SeqCase) files() string {
+	first := sc.Cands[0]
+	decl, _, targ := first.typeDecl()
+	var sb strings.Builder
+	sb.WriteString("package main\n\nimport slice\n\n" + decl + "\n" + outerDecl)
+	for i, c := range sc.Cands {
+		if sc.Nest && i == len(sc.Cands)-1 && len(sc.Cands) >= 2 {
+			// fn(u, v): an exhaustive default-less match on u whose first arm holds the candidate match on v
+			full := Cand{N: first.N, Mask: first.Mask, Decl: first.Decl}
+			for k := 0; k < first.N; k++ {
+				form := "bare"
+				if full.hasPayload(k) {
+					form = "ignore"
+				}
+				full.Arms = append(full.Arms, Arm{k, form})
+			}
+			fmt.Fprintf(&sb, "let m%d (u:%s) (v:%s) =\n  match u with\n", i, targ, targ)
+			for k, a := range full.Arms {
+				pat := caseName(a.Case)
+				if a.Form == "ignore" {
+					pat += " _"
+				}
+				if k == 0 {
+					fmt.Fprintf(&sb, "  | %s ->\n%s", pat, c.matchSrc("v", 4))
+				} else {
+					fmt.Fprintf(&sb, "  | %s -> %d\n", pat, 7000+k)
+				}
+			}
+			sb.WriteString("\n")
+			continue
+		}
+		sb.WriteString(c.funcSrc(fmt.Sprintf("m%d", i)))
+		sb.WriteString("\n")
+	}
+	return sb.String()
+}
+
+func checkSeqWith(e *vt.Env, fc string, sc SeqCase) error {
+	src := sc.files()
+	o, err := runFiles(e, fc, []string{"m.fo"}, []string{src})
+	if err != nil {
+		return err
+	}
+	firstBad := -1
+	for i, c := range sc.Cands {
+		if c.mustReject() {
+			firstBad = i
+			break
+		}
+	}
+	if firstBad < 0 {
+		if o.exit != 0 {
+			return fmt.Errorf("every match lists all cases or has a default, yet the file is REJECTED (exit %d):\n%s\nfor\n%s", o.exit, pipeline.Clip(o.out, 500), src)
+		}
+		if g, ok := o.gen["gen_m.go"]; !ok || g == sentinel {
+			return fmt.Errorf("accepted (exit 0) but gen_m.go was not written for\n%s", src)
+		}
+		return nil
+	}
+	bad := sc.Cands[firstBad]
+	if o.exit == 0 {
+		return fmt.Errorf("match number %d (function m%d) has no default and omits %v, yet the file was ACCEPTED (exit 0) - the decision depends on the matches before it:\n%s", firstBad+1, firstBad, caseNames(bad.uncovered()), src)
+	}
+	unc := map[string]bool{}
+	for _, i := range bad.uncovered() {
+		unc[caseName(i)] = true
+	}
+	ms := reKase.FindAllString(o.out, -1)
+	if len(ms) == 0 {
+		return fmt.Errorf("rejected, but the diagnostic names no uncovered case (uncovered in m%d: %v):\n%s\nfor\n%s", firstBad, caseNames(bad.uncovered()), pipeline.Clip(o.out, 500), src)
+	}
+	for _, m := range ms {
+		if !unc[m] {
+			return fmt.Errorf("rejected, but the diagnostic names %s, which match m%d covers (uncovered: %v):\n%s\nfor\n%s", m, firstBad, caseNames(bad.uncovered()), pipeline.Clip(o.out, 500), src)
+		}
+	}
+	if g, ok := o.gen["gen_m.go"]; !ok || g != sentinel {
+		return fmt.Errorf("rejected, but gen_m.go was written/removed for\n%s", src)
+	}
+	return nil
+}
+
+func checkSeq(sc SeqCase) error {
+	e := vt.Get()
+	if err := checkSeqWith(e, e.FC, sc); err != nil {
+		return err
+	}
+	if e.FCB != "" {
+		if err := checkSeqWith(e, e.FCB, sc); err != nil {
+			return fmt.Errorf("(compiler regenerated from fc/*.fo) %v", err)
+		}
+	}
+	return nil
+}
+
+func genCand(rt *rapid.T, n, mask int, decl string, forceAccept bool) Cand {
+	c := Cand{N: n, Mask: mask, Decl: decl}
+	perm := rapid.Permutation(seqInts(n)).Draw(rt, "order")
+	k := n
+	if !forceAccept && rapid.IntRange(0, 2).Draw(rt, "dropArms") != 0 && n > 1 {
+		k = rapid.IntRange(1, n-1).Draw(rt, "narms")
+	}
+	for _, i := range perm[:k] {
+		form := "bare"
+		if c.hasPayload(i) {
+			form = rapid.SampledFrom([]string{"bind", "ignore", "none"}).Draw(rt, "form")
+		}
+		c.Arms = append(c.Arms, Arm{i, form})
+	}
+	if k < n && rapid.IntRange(0, 2).Draw(rt, "default") == 0 {
+		c.Default = true
+	}
+	c.Ctx = rapid.SampledFrom([]string{"direct", "direct", "letrhs", "ifbranch", "localfunc"}).Draw(rt, "ctx")
+	return c
+}
+
+func TestMatchSequences(t *testing.T) {
+	e := vt.Get()
+	defer e.Flush()
+	if e.FC == "" {
+		t.Skip("needs the orchestrator (VERIF_FC)")
+	}
+	rapid.Check(t, func(rt *rapid.T) {
+		n := rapid.IntRange(2, 5).Draw(rt, "n")
+		mask := rapid.IntRange(0, 1<<n-1).Draw(rt, "mask")
+		decl := rapid.SampledFrom([]string{"plain", "plain", "generic", "andgroup"}).Draw(rt, "decl")
+		k := rapid.IntRange(2, 4).Draw(rt, "nmatches")
+		sc := SeqCase{}
+		// most sequences start with accepted matches so that a later rejection is the interesting one
+		acceptPrefix := rapid.IntRange(0, k-1).Draw(rt, "acceptPrefix")
+		for i := 0; i < k; i++ {
+			sc.Cands = append(sc.Cands, genCand(rt, n, mask, decl, i < acceptPrefix))
+		}
+		sc.Nest = rapid.IntRange(0, 3).Draw(rt, "nest") == 0
+		labels := []string{fmt.Sprintf("sequence of %d matches on one union", k)}
+		firstBad := -1
+		for i, c := range sc.Cands {
+			if c.mustReject() && firstBad < 0 {
+				firstBad = i
+			}
+		}
+		switch {
+		case firstBad < 0:
+			labels = append(labels, "expected: accept")
+		case firstBad == 0:
+			labels = append(labels, "expected: reject at the first match")
+		default:
+			labels = append(labels, "expected: reject after accepted matches on the same union")
+		}
+		if sc.Nest {
+			labels = append(labels, "last match nested in an arm of a match on the same union")
+		}
+		e.Record("TestMatchSequences", vt.HashJSON(sc), firstBad > 0, labels, func() any {
+			return map[string]any{"source": sc.files(), "first_rejecting_match": firstBad}
+		})
+		e.Check(rt, "match-sequence", sc, func() error { return checkSeq(sc) })
+	})
+}
+
 func seqInts(n int) []int {
 	out := make([]int, n)
 	for i := range out {
@@ -593,7 +762,8 @@ func seqInts(n int) []int {
 func TestReplay(t *testing.T) {
 	e := vt.Get()
 	e.RunReplay(t, map[string]func(json.RawMessage) error{
-		"match": vt.Handler(check),
+		"match":          vt.Handler(check),
+		"match-sequence": vt.Handler(checkSeq),
 		"match-batch": func(raw json.RawMessage) error {
 			var c struct {
 				Source string `json:"source"`
